@@ -286,7 +286,7 @@ function familyQ (tier, opts = {}) {
   const N = tier === 'thorough' ? 3 : 2
   // (a holder that is a logged spy, `o.concat`, is left out: reading a static path after the this argument is the
   // stated exemption of C01 and a logging spy would report it)
-  const holders = tier === 'thorough' ? ['X.prototype', 'String.prototype', 'g()', 'X.prototype.q', 'X[g()]', "X['prototype']", 'g().q[k]'] : ['X.prototype', 'g()', 'X[g()]', "X['prototype']"]
+  const holders = tier === 'thorough' ? ['X.prototype', 'String.prototype', 'g()', 'X[g()]', "X['prototype']", 'g().q[k]'] : ['X.prototype', 'g()', 'X[g()]', "X['prototype']"]
   const leaves = []
   const stats = { states: 1, transitions: 0 }
   const dims = [{ name: 'holder', symbols: holders, free: true }, { name: 'method', symbols: ['concat', 'trim'], free: true }, { name: 'fn', symbols: ['call', 'apply'], free: true }]
